@@ -123,9 +123,11 @@ class CyclicCodeEncoder(SystematicLinearBlockCodeEncoder):
         # Create the generator matrix for systematic coding
         generator_matrix = self._generate_systematic_matrix()
 
-        # Extract the parity submatrix for systematic encoding
+        # Extract the parity submatrix for systematic encoding. The matrix above is [P | I_k]:
+        # the remainder (parity) coefficients occupy its first n - k columns. Since the code is
+        # closed under cyclic shifts, [I_k | P] ('left') and [P | I_k] ('right') generate the same code.
         k, n = self._dimension, self._length
-        parity_submatrix = generator_matrix[:, k:n] if information_set == "left" else generator_matrix[:, 0 : n - k]
+        parity_submatrix = generator_matrix[:, 0 : n - k]
         super().__init__(parity_submatrix=parity_submatrix, information_set=information_set, **kwargs)
 
         # Register additional buffers specific to cyclic codes
@@ -454,17 +456,12 @@ class CyclicCodeEncoder(SystematicLinearBlockCodeEncoder):
         errors in all positions. We construct it such that: H = [P^T | I_m] where P is the parity
         submatrix of G.
         """
-        # For a systematic (n,k) code with generator matrix G = [I_k | P],
-        # the check matrix is H = [P^T | I_(n-k)]
-        identity_part = torch.eye(self._redundancy, dtype=torch.float32, device=self.generator_matrix.device)
-
-        if self.information_set == "left":
-            # For 'left' information set, G = [I_k | P]
-            parity_part = self.generator_matrix[:, self._dimension :].T
-            # H = [P^T | I_m]
-            self._check_matrix = torch.cat([parity_part, identity_part], dim=1)
-        else:
-            # For 'right' information set, G = [P | I_k]
-            parity_part = self.generator_matrix[:, : self._redundancy].T
-            # H = [I_m | P^T]
-            self._check_matrix = torch.cat([identity_part, parity_part], dim=1)
+        # With the identity on the information set and P on the parity set of G, the check matrix
+        # has P^T on the information set and the identity on the parity set (for any information
+        # set: 'left' gives H = [P^T | I_m], 'right' gives H = [I_m | P^T])
+        dtype = self.generator_matrix.dtype
+        device = self.generator_matrix.device
+        check_matrix = torch.zeros((self._redundancy, self._length), dtype=dtype, device=device)
+        check_matrix[:, self.parity_set] = torch.eye(self._redundancy, dtype=dtype, device=device)
+        check_matrix[:, self.information_set] = self.parity_submatrix.T.to(dtype)
+        self._check_matrix = check_matrix
